@@ -20,7 +20,7 @@ import (
 // transient faults; oracle: whenever the commands report success every bundle still downloads.
 
 type c13scn struct {
-	hist   string // base | orphan | many (base + a 12-leaf file: with chunk size 1 the index has more than 10 chunks,
+	hist string // base | orphan | many (base + a 12-leaf file: with chunk size 1 the index has more than 10 chunks,
 	// whose names chunk-1, chunk-10, chunk-11, chunk-2 ... are not listed in numeric order)
 	upload string // none | fresh | shares-indexed | reuses-orphan
 }
